@@ -11,8 +11,9 @@
   * random streams: a `RandomStateService` is a pair (seed, position); `numpy.random.RandomState`
     is a *parameter* `gen seed pos` (the 32-bit word at position `pos` of the stream of `seed`);
     `doTrial`, `trialsSeq`, `parTrials` mirror `Analysis.do_trial`, `do_trials` with
-    `parallelize` (worker seeds drawn from the parent stream, `np.array_split` chunking);
-    `World`/`Op`/`run` put several named services and a history of operations around it.
+    `parallelize` (worker seeds drawn from the parent stream, `np.array_split` chunking) on a
+    store `World` of services addressed by reference (aliasing expressible, fork = copy);
+    `Op`/`run` put a history of operations around it.
 
   Core Lean only.  Numeric parts are written against the standard notation classes so the same
   definitions run on `Float` in the driver and are reasoned about over ordered fields in
@@ -160,37 +161,49 @@ structure TrialOut (D R : Type) where
   data : D
   fit : R
 
+/-- named services: a store of `RandomStateService` objects addressed by reference.  Two
+arguments of a call may be the *same* reference (`minimizer_rss is rss`): the store makes that
+aliasing expressible. -/
+abbrev World := Nat → Stream
+
+def World.set (w : World) (a : Nat) (s : Stream) : World := fun b => if b = a then s else w b
+
+/-- a newly constructed object enters a (copied) store at reference 0, every existing reference
+shifts by one — a new object is never an alias of an existing one -/
+def World.push (w : World) (s : Stream) : World := fun r =>
+  match r with
+  | 0 => s
+  | r + 1 => w r
+
 section streams
 variable {V D R : Type}
 
-/-- `Analysis.do_trial(rss, minimizer_rss)`: returns the result row, the data stream and the
-minimiser stream afterwards. -/
-def doTrial (gen : Nat → Nat → V) (cfg : TrialCfg V D R) (rss : Stream) (mrss : Option Stream) :
-    TrialOut D R × Stream × Option Stream :=
-  -- if minimizer_rss is None: minimizer_rss = RandomStateService(seed=rss.seed)
-  let m := match mrss with
-    | none => Stream.fresh rss.seed
-    | some m => m
-  let g := cfg.dataGen (rss.view gen)
-  let f := cfg.minim g.1 (m.view gen)
-  (⟨rss.seed, g.1, f.1⟩, rss.adv g.2, mrss.map (fun m => m.adv f.2))
-
-/-- mutant used for non-vacuity only: the minimiser draws from the data stream -/
-def doTrialShared (gen : Nat → Nat → V) (cfg : TrialCfg V D R) (rss : Stream) :
-    TrialOut D R × Stream :=
-  let g := cfg.dataGen (rss.view gen)
-  let f := cfg.minim g.1 ((rss.adv g.2).view gen)
-  (⟨rss.seed, g.1, f.1⟩, (rss.adv g.2).adv f.2)
+/-- `Analysis.do_trial(rss=a, minimizer_rss=ms)` on the store `w`: returns the result row and the
+store afterwards.  With `ms = none` the code builds `RandomStateService(seed=rss.seed)`, an object
+nobody else holds (a value here); with `ms = some m` the caller's object is read and advanced in
+place, *after* the pseudo data was drawn — for `m = a` the restarts read and shift the data stream. -/
+def doTrial (gen : Nat → Nat → V) (cfg : TrialCfg V D R) (w : World) (a : Nat) (ms : Option Nat) :
+    TrialOut D R × World :=
+  let seed := (w a).seed
+  let g := cfg.dataGen ((w a).view gen)
+  let w1 := w.set a ((w a).adv g.2)
+  match ms with
+  | none =>
+    let f := cfg.minim g.1 ((Stream.fresh seed).view gen)
+    (⟨seed, g.1, f.1⟩, w1)
+  | some m =>
+    let f := cfg.minim g.1 ((w1 m).view gen)
+    (⟨seed, g.1, f.1⟩, w1.set m ((w1 m).adv f.2))
 
 /-- `n` trials one after the other on the same services (`parallelize` with `ncpu == 1`, and each
 worker's loop) -/
 def trialsSeq (gen : Nat → Nat → V) (cfg : TrialCfg V D R) :
-    Nat → Stream → Option Stream → List (TrialOut D R) × Stream × Option Stream
-  | 0, rss, m => ([], rss, m)
-  | n + 1, rss, m =>
-    let r := doTrial gen cfg rss m
-    let rest := trialsSeq gen cfg n r.2.1 r.2.2
-    (r.1 :: rest.1, rest.2.1, rest.2.2)
+    Nat → World → Nat → Option Nat → List (TrialOut D R) × World
+  | 0, w, _, _ => ([], w)
+  | n + 1, w, a, ms =>
+    let r := doTrial gen cfg w a ms
+    let rest := trialsSeq gen cfg n r.2 a ms
+    (r.1 :: rest.1, rest.2)
 
 /-- chunk lengths of `np.array_split(args_list, ncpu)` -/
 def chunkSizes (n ncpu : Nat) : List Nat :=
@@ -203,28 +216,39 @@ def workerSeeds (gen : Nat → Nat → V) (toSeed : V → Nat) (rss : Stream) (n
 structure ParOut (D R : Type) where
   outs : List (TrialOut D R)
   workerSeeds : List Nat
-  rss : Stream
-  mrss : Option Stream
+  world : World
 
-/-- `Analysis.do_trials(rss, n, ncpu)` through `parallelize`: results in task order -/
+/-- `parallelize(do_trial, n tasks, ncpu, rss=a)` with `minimizer_rss=ms` in every task's kwargs:
+results in task order.  The worker services are created in the parent, the processes are forked
+(each sees a *copy* of the store plus its own new service; what it does to its copy is lost), then
+the master computes the first chunk on the parent store. -/
 def parTrials (gen : Nat → Nat → V) (toSeed : V → Nat) (cfg : TrialCfg V D R)
-    (n ncpu : Nat) (rss : Stream) (m : Option Stream) : ParOut D R :=
+    (n ncpu : Nat) (w : World) (a : Nat) (ms : Option Nat) : ParOut D R :=
   if ncpu ≤ 1 then
-    let r := trialsSeq gen cfg n rss m
-    ⟨r.1, [], r.2.1, r.2.2⟩
+    let r := trialsSeq gen cfg n w a ms
+    ⟨r.1, [], r.2⟩
   else
-    let seeds := workerSeeds gen toSeed rss ncpu
+    let seeds := workerSeeds gen toSeed (w a) ncpu
     let sizes := chunkSizes n ncpu
-    -- the master process (pid 0) keeps the parent service, advanced by the seed draws
-    let r0 := trialsSeq gen cfg (sizes.headD 0) (rss.adv (ncpu - 1)) m
-    -- each worker gets a fresh service and its own (forked) copy of the minimiser service
-    let rest := (seeds.zip sizes.tail).map (fun sk => (trialsSeq gen cfg sk.2 (Stream.fresh sk.1) m).1)
-    ⟨r0.1 ++ rest.flatten, seeds, r0.2.1, r0.2.2⟩
+    let w1 := w.set a ((w a).adv (ncpu - 1))
+    let rest := (seeds.zip sizes.tail).map (fun sk =>
+      (trialsSeq gen cfg sk.2 (w1.push (Stream.fresh sk.1)) 0 (ms.map (· + 1))).1)
+    let r0 := trialsSeq gen cfg (sizes.headD 0) w1 a ms
+    ⟨r0.1 ++ rest.flatten, seeds, r0.2⟩
 
-/-- named services -/
-abbrev World := Nat → Stream
+inductive Err where
+  /-- `get_ncpu`: "The ncpu setting must be >= 1!" -/
+  | valueError
+  /-- `result_list[0]` on an empty result list -/
+  | indexError
+deriving DecidableEq, Repr
 
-def World.set (w : World) (a : Nat) (s : Stream) : World := fun b => if b = a then s else w b
+/-- `Analysis.do_trials(rss, n, ncpu, minimizer_rss)` including its error paths -/
+def doTrials (gen : Nat → Nat → V) (toSeed : V → Nat) (cfg : TrialCfg V D R)
+    (n ncpu : Nat) (w : World) (a : Nat) (ms : Option Nat) : Except Err (ParOut D R) :=
+  if ncpu = 0 then .error .valueError
+  else if n = 0 then .error .indexError
+  else .ok (parTrials gen toSeed cfg n ncpu w a ms)
 
 inductive Op where
   /-- any consumer drawing `k` words from service `svc` -/
@@ -244,12 +268,8 @@ def step (gen : Nat → Nat → V) (toSeed : V → Nat) (cfg : TrialCfg V D R) (
   | .draw s k => (w.set s ((w s).adv k), [])
   | .reseed s seed => (w.set s (Stream.fresh seed), [])
   | .trials s ms n ncpu =>
-    let r := parTrials gen toSeed cfg n ncpu (w s) (ms.map w)
-    let w1 := w.set s r.rss
-    let w2 := match ms, r.mrss with
-      | some m, some st => w1.set m st
-      | _, _ => w1
-    (w2, r.outs)
+    let r := parTrials gen toSeed cfg n ncpu w s ms
+    (r.world, r.outs)
 
 /-- run a history; the outputs of all trial operations are concatenated -/
 def run (gen : Nat → Nat → V) (toSeed : V → Nat) (cfg : TrialCfg V D R) :
@@ -264,16 +284,23 @@ end streams
 
 /-! ### the time-generation service (`Livetime.draw_ontimes`, `TimeGenerator.generate_times`)
 
-The only state of a `Livetime` object is its up-time interval array (changed by the
-`uptime_mjd_intervals_arr` setter); `LivetimeTimeGenerationMethod` and `TimeGenerator` hold a
-reference to it and nothing else.  A draw reads `size` uniform deviates (two words each) from the
-service it is given.  The code keeps no cache, so the model has none either: the state machine
-below exists to say that a draw is a function of (current intervals, window, size, stream). -/
+The state of a `Livetime` object is its up-time interval array (changed by the
+`uptime_mjd_intervals_arr` setter) **and whatever a draw may leave behind on the object** — the
+model gives the object a `cache` cell that the draw function reads and may write
+(`LivetimeTimeGenerationMethod` and `TimeGenerator` only hold a reference to the `Livetime`).
+The code at hand writes nothing; whether a given implementation's cache is harmless is the
+hypothesis `Transparent` of the theorems, and it is that hypothesis which the fresh-vs-used
+correspondence (`time_history`) tests on the real objects.  A draw reads `size` uniform deviates
+(two words each) from the service it is given. -/
 
-structure TimeCfg (V I W T : Type) where
-  /-- the times computed from the intervals, the optional window `(t_min, t_max)`, `size` and the
-  deviates read from the stream view -/
-  draw : I → Option W → Nat → (Nat → V) → T
+structure TimeCfg (V I W T C : Type) where
+  /-- the times computed from the intervals, the object's cache cell, the optional window
+  `(t_min, t_max)`, `size` and the deviates read from the stream view; and the new cache cell -/
+  draw : I → Option C → Option W → Nat → (Nat → V) → T × Option C
+
+/-- the cache never shows in the returned times -/
+def TimeCfg.Transparent {V I W T C : Type} (tc : TimeCfg V I W T C) : Prop :=
+  ∀ ivs c win size v, (tc.draw ivs c win size v).1 = (tc.draw ivs none win size v).1
 
 inductive TOp (I W : Type) where
   /-- `draw_ontimes(rss=svc, size, t_min, t_max)` / `generate_times(rss=svc, size, …)` -/
@@ -294,27 +321,40 @@ def TOp.touches {I W : Type} (a : Nat) : TOp I W → Bool
   | .other s _ => s == a
   | .reseed s _ => s == a
 
-structure TState (I : Type) where
+structure TState (I C : Type) where
   ivs : I
+  cache : Option C
   world : World
 
 section times
-variable {V I W T : Type}
+variable {V I W T C : Type}
 
-def tstep (gen : Nat → Nat → V) (tc : TimeCfg V I W T) (st : TState I) : TOp I W → TState I × Option T
+def tstep (gen : Nat → Nat → V) (tc : TimeCfg V I W T C) (st : TState I C) :
+    TOp I W → TState I C × Option T
   | .draw s win size =>
-    (⟨st.ivs, st.world.set s ((st.world s).adv (2 * size))⟩,
-      some (tc.draw st.ivs win size ((st.world s).view gen)))
-  | .setIvs ivs => (⟨ivs, st.world⟩, none)
-  | .other s k => (⟨st.ivs, st.world.set s ((st.world s).adv k)⟩, none)
-  | .reseed s seed => (⟨st.ivs, st.world.set s (Stream.fresh seed)⟩, none)
+    let r := tc.draw st.ivs st.cache win size ((st.world s).view gen)
+    (⟨st.ivs, r.2, st.world.set s ((st.world s).adv (2 * size))⟩, some r.1)
+  -- what the setter does with a cache is the implementation's business; the worst case (kept) is modelled
+  | .setIvs ivs => (⟨ivs, st.cache, st.world⟩, none)
+  | .other s k => (⟨st.ivs, st.cache, st.world.set s ((st.world s).adv k)⟩, none)
+  | .reseed s seed => (⟨st.ivs, st.cache, st.world.set s (Stream.fresh seed)⟩, none)
 
-def trun (gen : Nat → Nat → V) (tc : TimeCfg V I W T) : TState I → List (TOp I W) → TState I × List (Option T)
+def trun (gen : Nat → Nat → V) (tc : TimeCfg V I W T C) :
+    TState I C → List (TOp I W) → TState I C × List (Option T)
   | st, [] => (st, [])
   | st, op :: rest =>
     let r := tstep gen tc st op
     let r' := trun gen tc r.1 rest
     (r'.1, r.2 :: r'.2)
+
+/-- shape of the round-2 seeded change: the cumulative array of the *last* draw is kept in the cache
+cell and used by the next plain draw (`C = W`: the window the cached array belongs to) -/
+def leakyDraw : TimeCfg Nat Nat Nat (Nat × Option Nat) Nat where
+  draw ivs c win _ v :=
+    let used := match win with
+      | some x => some x
+      | none => c
+    ((ivs + v 0, used), used)
 
 end times
 
